@@ -686,7 +686,7 @@ class _Fn:
             return out
         if self.qual.endswith(":getter") and isinstance(f, ast.Name) and f.id == "Point" and len(n.args) == 1 and isinstance(n.args[0], (ast.Attribute, ast.Name)) \
                 and _stored_endpoint(n.args[0], self.fn):
-            # nonepoint: the end points of a STORED segment may be None (`z` first stores Close(None, None)); Point(None) raises
+            # nonepoint: the end points of a STORED segment may be None (`z` first stores Close(None, None)); Point(None) has None coordinates and the next arithmetic raises
             from .flow import dominated
 
             chain = ast.unparse(n.args[0])
